@@ -47,11 +47,12 @@ def search_more(ctx, res, proof, bindir):
 def post(ctx, rows, res, bindir):
     core_rows = [r for r in rows if r[1].startswith("(pair")]
     e2e_rows = [r for r in rows if r[1].startswith("(e2e")]
+    lit_rows = [r for r in e2e_rows if r[1].startswith("(e2elit")]
     acc = sum("(super true)" in r[2] for r in core_rows)
     dist = {"core_pairs": len(core_rows), "core_accepted": acc, "e2e_programs": len(e2e_rows),
             "e2e_accepted": sum("(e2e accept)" in r[2] for r in e2e_rows),
             "e2e_agree_with_hook": sum(("(e2e accept)" in r[2]) == ("(hook true)" in r[2]) for r in e2e_rows),
-            "e2e_outcomes": {}, "with_bare_variants": sum(("(rand " in r[1] or "(ror" in r[1] or "(rnot " in r[1]) for r in core_rows),
+            "e2e_literal_ascriptions": len(lit_rows), "e2e_literal_accepted": sum("(e2e accept)" in r[2] for r in lit_rows), "e2e_outcomes": {}, "with_bare_variants": sum(("(rand " in r[1] or "(ror" in r[1] or "(rnot " in r[1]) for r in core_rows),
             "with_boundary_constants": sum(any(len(t.strip("()-")) > 3 and t.strip("()-").isdigit() for t in r[1].split(" ")) for r in core_rows),
             "arm": {}}
     for r in e2e_rows:
